@@ -159,6 +159,7 @@ FAULTS = {
     "include-own-link-aborted": ['.include "ownlink.mac"'],
     "include-own-dot-aborted": ['.include "owndot.mac"'],
     "include-own-link-nested-syntax-error": ['.include "ownnest.mac"'],
+    "unencodable-string-with-forward-chunk": ['.asciz "αβγ" <fc{i}> ""', "fc{i}:"],
     "non-ascii-digit": [".word \u0668", ".byte 1\u0663, \u00b2"],
     # diagnostics with two spans in two files, the other span far down in a file longer than the text itself
     "cross-file-duplicate-export": ['.include "long.mac"', "lx1:: nop"],
